@@ -23,6 +23,7 @@ import (
 	"fmt"
 	"math/rand"
 	"os"
+	"regexp"
 	"runtime"
 	"sort"
 	"strconv"
@@ -132,7 +133,10 @@ func c33framesStop(ir *fast.Interp) string {
 }
 
 var c33ctlInterp *fast.Interp
-var c33lastRace string
+var c33raceText []string
+
+// functions that implement the registry protocol and the per-goroutine frame pool
+var c33reRegistry = regexp.MustCompile(`^(fast\.\(\*IrGlobals\)\.glsGet|fast\.\(\*Run\)\.(glsStore|glsDel|getRun4Goid|new)|fast\.(newEnv4Func|NewEnv|newEnv)|fast\.\(\*Env\)\.(freeEnv|FreeEnv|freeEnv4Func)|fast\.\(\*Comp\)\.Go\.func[\d.]+|fast\.newTopInterp|atomic\.\(\*SpinLock\)\.\w+|gls\.\w+)$`)
 
 func c33getHook() c33Hook {
 	if !c33hookTried {
@@ -685,16 +689,31 @@ func c33runScenarioBody(kind string, seed int64, procs, size int) (lines []strin
 		tl, ttags = c33translate(ev, reg)
 	}
 	lines = append(lines, tl...)
+	tags = append(tags, ttags...)
 	if framesOn {
 		lines = append(lines, "frames => "+c33framesStop(c33ctlInterp))
 	}
 	if rep := c10newRaces(); rep != "" {
-		c33lastRace = rep
-		lines = append(lines, "race => "+c10raceKey(rep))
+		// C33 is about the registry and the per-goroutine Run/pool: only races whose accesses are in that code count
+		// here (races elsewhere in the interpreter are C10's business)
+		key, one := c10racePick(rep, func(fr []string) bool {
+			for _, f := range fr {
+				if c33reRegistry.MatchString(f) {
+					return true
+				}
+			}
+			return false
+		})
+		if key != "" {
+			lines = append(lines, "race => "+key+" #"+strconv.Itoa(len(c33raceText)))
+			c33raceText = append(c33raceText, one)
+		} else {
+			lines = append(lines, "race => none")
+			tags = append(tags, "race-elsewhere")
+		}
 	} else if os.Getenv("C10_RACE_LOG") != "" {
 		lines = append(lines, "race => none")
 	}
-	tags = append(tags, ttags...)
 	if reuse != "" {
 		tags = append(tags, reuse)
 	}
@@ -726,14 +745,18 @@ func c33funcs2(e *c33env) (leaf, clo, wd func(int) int, ok bool) {
 
 // go-statement children log their `del` after the interpreted function returned: wait for them
 func c33waitChildren(h c33Hook) bool {
-	for i := 0; ; i++ {
+	deadline := time.Now().Add(60 * time.Second) // generous: the machine may be heavily loaded
+	for d := 100 * time.Microsecond; ; {
 		if c33openChildren(h.VerifC33Ctl("events", nil)) == 0 {
 			return true
 		}
-		if i > 20000 {
+		if time.Now().After(deadline) {
 			return false
 		}
-		time.Sleep(100 * time.Microsecond)
+		time.Sleep(d)
+		if d < 20*time.Millisecond {
+			d *= 2
+		}
 	}
 }
 
@@ -975,7 +998,12 @@ func c33judge(body, real string) (string, string) {
 		}
 		return "recycled frames are not private to one Run: " + real, key
 	case ev == "race" && real != "none":
-		return "data race reported during the scenario:\n" + truncate(c33lastRace, 3000), real
+		key, idx, _ := strings.Cut(real, " #")
+		txt := ""
+		if i, err := strconv.Atoi(idx); err == nil && i < len(c33raceText) {
+			txt = c33raceText[i]
+		}
+		return "data race in the registry / frame-pool code reported during the scenario:\n" + truncate(txt, 3000), key
 	case ev == "error":
 		return "scenario failed: " + body, "scenario-error"
 	}
